@@ -21,6 +21,11 @@
    ever justified, is a (variable, function) pair added to `allowed_mutations` WITH its reason; the
    host theorem (HostGlobals) is stated for an empty list and stops compiling otherwise.
 
+   One rule is built into the translator rather than listed here: for os.Stdout / os.Stderr,
+   WRITING TO the stream (a method call on it, handing the *os.File to a function) is output — the
+   host model accounts for it as h_output — and is classified as a read of the variable; only
+   re-pointing the variable (assignment, address taken) is a UWrite.
+
    What this does NOT cover (stated in the evidence): state hidden in the standard library behind
    function calls (flag.Parse, log.SetOutput, math/rand's global source, os.Setenv, ...), state
    reachable from the arguments of a run (a RuntimeEnvironment that the caller re-uses: suite `seqre`),
